@@ -33,6 +33,9 @@ type NetSpec struct {
 	Outputs int
 	Bonds   [][2]string // {internal input endpoint, internal output endpoint}
 	Family  string
+	// BuildOrder != 0: the machine is built with external inputs, external outputs and processors
+	// added in a shuffled order (see NewBMOrder)
+	BuildOrder uint64 `json:",omitempty"`
 }
 
 func (n NetSpec) String() string {
@@ -45,7 +48,11 @@ func (n NetSpec) String() string {
 		b = append(b, x[1]+"->"+x[0])
 	}
 	sort.Strings(b)
-	return fmt.Sprintf("%s rsize=%d in=%d out=%d %s bonds[%s]", n.Family, n.Rsize, n.Inputs, n.Outputs, strings.Join(p, " "), strings.Join(b, " "))
+	order := ""
+	if n.BuildOrder != 0 {
+		order = fmt.Sprintf(" build-order=%d", n.BuildOrder)
+	}
+	return fmt.Sprintf("%s rsize=%d in=%d out=%d%s %s bonds[%s]", n.Family, n.Rsize, n.Inputs, n.Outputs, order, strings.Join(p, " "), strings.Join(b, " "))
 }
 
 func (ps *ProcSpec) program() ([]string, []string) {
@@ -111,7 +118,7 @@ func (n *NetSpec) Build() (*bondmachine.Bondmachine, error) {
 		}
 		machs = append(machs, m)
 	}
-	return NewBM(n.Rsize, machs, n.Inputs, n.Outputs, n.Bonds), nil
+	return NewBMOrder(n.Rsize, machs, n.Inputs, n.Outputs, n.Bonds, n.BuildOrder), nil
 }
 
 var arithPool = []string{"add", "mult", "inc", "dec", "cpy", "addp", "multp"}
